@@ -300,7 +300,9 @@ func getRig(engine string) (*rigT, error) {
 	oai.KeepBody, vll.KeepBody = 5*MiB, 5*MiB
 	deadURL := fmt.Sprintf("http://127.0.0.1:%d", hx.DeadPort(0))
 	s, err := stack.Boot(stack.Options{Engine: engine, Balancer: "round-robin", Endpoints: stack.EndpointConfigs([]stack.Endpoint{
-		{Name: "oai", URL: oai.URL(), Type: "openai-compatible", Priority: 100},
+		// preserve_path on an endpoint without a base path forwards the same path as without it; the
+		// flag takes the request through the URL builder's other branch
+		{Name: "oai", URL: oai.URL(), Type: "openai-compatible", Priority: 100, Preserve: true},
 		{Name: "vllm", URL: vll.URL(), Type: "vllm", Priority: 100},
 		{Name: "dead", URL: deadURL, Type: "openai-compatible", Priority: 100},
 	})})
